@@ -481,6 +481,7 @@ def verify_function(qualname, contract, schema, timeout_ms=10000, contracts=None
         except _Return as r:
             out.kind = "return"
             out.value = r.value
+            body_env["LOOP_EXIT"] = "return"   # a fragment left by a `return` statement (as opposed to running to its end)
         except _Raise as r:
             out.kind = "raise"
             out.exc = r.exc_class
